@@ -265,18 +265,22 @@ def judgeDist (tag : String) (kind : String) (q : Pt UInt64) (ls : List (List (P
       | none, x => x | x, none => x | some x, some y => some (min x y)) none
     let S := maxAbs ([rq] :: rl)
     let where_ : String := match want, fvOfBits a with
-      | some w, .fin d => if w == 0 then "on" else if d == 0 then "zero" else "off"
+      | some w, .fin d => if w == 0 then "on" else if d == 0 then "zero"
+                          else if w * 1000000000000 ≤ S * S then "near" else "off"
       | none, _ => "nosegment" | _, _ => "nonfinite"
     let cls := s!"dist-{tag}-{kind}-seg{min nseg 9}-{where_}"
+    -- tolerance: 1e-9 relative to the distance itself plus 1e-12 relative to the largest coordinate
+    -- (the conditioning of the problem: each coordinate difference carries one rounding of size
+    -- 2^-53·S, so a backward-stable evaluation is within a few 1e-16·S; a NaN is never accepted)
     let specOK : Bool := match want, fvOfBits a with
       | none, .pinf => true
       | some w, .fin d =>
-        let t := eps * (d + S)
+        let t := eps * d + S / 1000000000000
         decide (0 ≤ d) && decide ((if d - t < 0 then 0 else (d - t) * (d - t)) ≤ w) && decide (w ≤ (d + t) * (d + t))
       | _, _ => false
     let modelOK : Bool := match m with
       | none => a == 0x7ff0000000000000
-      | some x => fclose ia x (lineScale ([fq] :: fl))
+      | some x => (ia == x) || Float.abs (ia - x) ≤ 1e-9 * Float.abs x + 1e-12 * lineScale ([fq] :: fl)
     if !specOK then s!"SPEC {cls} Distance={ia} but exact squared minimum distance={match want with | some w => toString w | none => "none(+Inf)"}"
     else if !modelOK then s!"DIFF {cls} Distance impl={ia} model={m}"
     else s!"OK {cls}"
@@ -387,9 +391,26 @@ def judgeLine (line : String) : String :=
 
 end GeomV.C03
 
+/-- all non-empty input lines -/
+partial def GeomV.C03.readLines (h : IO.FS.Stream) (acc : Array String) : IO (Array String) := do
+  let line ← h.getLine
+  if line.isEmpty then return acc
+  let l := (line.trimAscii).toString
+  GeomV.C03.readLines h (if l ≠ "" then acc.push l else acc)
+
+/-- `judgeLine` is a pure function of one line, so the lines are judged in chunks on the thread pool
+(one verdict per line, printed in input order). -/
+def GeomV.C03.judgeAll (lines : Array String) (chunk : Nat := 16) : Array (Task (Array String)) :=
+  (Array.range ((lines.size + chunk - 1) / chunk)).map fun c =>
+    Task.spawn fun _ => (lines.extract (c * chunk) ((c + 1) * chunk)).map GeomV.C03.judgeLine
+
 open GeomV GeomV.C03 in
 def main (args : List String) : IO Unit := do
   let out ← IO.getStdout
   match args with
-  | ["judge"] => forEachLine fun l => out.putStrLn (judgeLine l)
+  | ["judge"] =>
+    let lines ← readLines (← IO.getStdin) #[]
+    for t in judgeAll lines do
+      for v in t.get do out.putStrLn v
+  | ["judge1"] => forEachLine fun l => out.putStrLn (judgeLine l)
   | _ => IO.eprintln "usage: geomv_c03 judge"
